@@ -133,6 +133,27 @@ func checkAttachSites(r *Report) {
 						okSite = true // inlined form: authorised right here, on this path
 					}
 				}
+				// ... or on the edge where the looked-up bridge's own mapping id equals the request's mapping id,
+				// which the validator has judged for this requester (a duplicate open for the same mapping)
+				for _, ft := range Facts(in.Block()) {
+					bo, isB := ft.Cond.(*ssa.BinOp)
+					if !isB || !((bo.Op == token.EQL && ft.Pol) || (bo.Op == token.NEQ && !ft.Pol)) {
+						continue
+					}
+					for _, pr := range [][2]ssa.Value{{bo.X, bo.Y}, {bo.Y, bo.X}} {
+						gc, _ := CallOfValue(pr[0])
+						if gc == nil || !strings.Contains(originSummary(pr[1]), "TunnelOpenRequest.MappingID") {
+							continue
+						}
+						gname := CalleeOf(gc).Name
+						if gc.Common().IsInvoke() {
+							gname = gc.Common().Method.Name()
+						}
+						if gname == "GetMappingID" && (Recv(gc) == rv || originSummary(Recv(gc)) == originSummary(rv)) {
+							okSite = true
+						}
+					}
+				}
 				msg := "attach " + name + " on a bridge looked up in the live-bridge table in place: the source side of an existing tunnel is replaced only through handleExistingBridge, on the bridge authorizeTunnelAttach was asked about"
 				r.Ob("R-C04-1", CallPos(ci), okSite, msg, fn, "attach-site:"+name)
 			})
